@@ -48,27 +48,46 @@ Definition mkpB nS nA nO P R ab ini g Ob :=
   @mk_pomdp bigQ NumB nS nA nO (b3 P) (b3 R) ab (b1 ini) (BigQ.of_Q g) (b3 Ob).
 Definition qz (x : Q) := (Qnum x, Zpos (Qden x)).
 Definition tailF (p : pomdp Q) k (u : list Q) := @tail Q NumQ p (@rM_tab Q NumQ p) k (untab u).
+(* j-step QMDP table (theorem C08_qmdp_upper / fullobs_qmdp_exact), computed once per case *)
+Definition qtab (p : pomdp Q) (j : nat) : list (list Q) :=
+  match j with
+  | O => @tab2 Q (nS (base p)) (nA (base p)) (fun _ _ => 0)
+  | S j' => @tab2 Q (nS (base p)) (nA (base p)) (Qval (base p) (@Vk Q NumQ p j'))
+  end.
+(* (PBVI value <= QMDP(Qt) value + slack + tol,  QMDP(Qt) value <= PBVI value + slack + tol) *)
+Definition le_tab (p : pomdp Q) tol (Qt : list (list Q)) (slackon : bool) j G (u : list Q) :=
+  match @alpha_value Q NumQ p G (untab u), @qmdp_value Q NumQ p (untab2 Qt) (untab u) with
+  | Some v, Some w =>
+    let sl := if slackon then tailF p j u else 0 in
+    (Qle_bool v (w + sl + tol), Qle_bool w (v + sl + tol))
+  | _, _ => (false, false)
+  end.
 (* per test belief with implementation action values av and action distribution d *)
-Definition pb_one p tol ptol k j G Qs (e : list Q * (list Q * list Q)) :=
+Definition pb_one p tol ptol k j G Qs Qt slackon (e : list Q * (list Q * list Q)) :=
   let u := fst e in
   (@nonnegb Q NumQ p (untab u),
-   @chk_pbvi_upperF Q NumQ p tol k j G u, @chk_pbvi_le_qmdpF Q NumQ p tol j G u,
+   @chk_pbvi_upperF Q NumQ p tol k j G u, fst (le_tab p tol Qt slackon j G u),
    @chk_crossF Q NumQ p tol j G Qs u,
    qz (@alpha_valueF Q NumQ p G u), map qz (@alpha_avF Q NumQ p G u),
    @greedy_checkF Q NumQ p ptol (fst (snd e)) (snd (snd e)),
    qz (@WoptF Q NumQ p k u), qz (tailF p k u)).
 (* per point of the recorded belief set (model side only) *)
-Definition pb_pt p tol k j G Qs (u : list Q) :=
-  (@chk_pbvi_upperF Q NumQ p tol k j G u, @chk_pbvi_le_qmdpF Q NumQ p tol j G u,
-   @chk_crossF Q NumQ p tol j G Qs u, @chk_fullobs_geF Q NumQ p tol j G u).
-Definition pb_rep p tol ptol k j G Qs es pts :=
-  (@wfpomdpb Q NumQ p, @fullobsb Q NumQ p, map (pb_one p tol ptol k j G Qs) es, map (pb_pt p tol k j G Qs) pts).
+Definition pb_pt p tol k j G Qs Qt slackon (u : list Q) :=
+  (@chk_pbvi_upperF Q NumQ p tol k j G u, fst (le_tab p tol Qt slackon j G u),
+   @chk_crossF Q NumQ p tol j G Qs u, snd (le_tab p tol Qt slackon j G u)).
+(* jq = Some j: use the exact j-step QMDP table; None: the optimal table Qs with slack tail j *)
+Definition pb_rep p tol ptol k j (exactj : bool) G Qs es pts :=
+  let Qt := if exactj then qtab p j else Qs in
+  let slackon := negb exactj in
+  (@wfpomdpb Q NumQ p, @fullobsb Q NumQ p, map (pb_one p tol ptol k j G Qs Qt slackon) es,
+   map (pb_pt p tol k j G Qs Qt slackon) pts).
 Definition q_one p tol ptol k Qt (e : list Q * (list Q * list Q)) :=
   let u := fst e in
   (@chk_qmdp_lowerF Q NumQ p tol k Qt u, map qz (@qmdp_avF Q NumQ p Qt u),
    @greedy_checkF Q NumQ p ptol (fst (snd e)) (snd (snd e)), qz (@WoptF Q NumQ p k u), qz (tailF p k u)).
 Definition q_rep p qtol tol ptol k Vs Qt es :=
   (@wfpomdpb Q NumQ p, @chk_qtableF Q NumQ p qtol Vs Qt, map (q_one p tol ptol k Qt) es).
+Definition sw p tol Gprev B cand idx := @chk_sweepF Q NumQ p tol Gprev B cand idx.
 Definition mir p H amb eps B Gi tol :=
   (@wfpomdpb bigQ NumB p,
    @mirror_cmp bigQ NumB p H (BigQ.of_Q amb) (BigQ.of_Q eps) (b2 B) (b2 Gi) (BigQ.of_Q tol)).
@@ -324,10 +343,15 @@ def run(ctx):
                 G = pb["alpha_vectors"]
                 B = lc["belief_set"]
                 pts = B[:6]
-                terms.append("pb_rep %s %s %s %s %s %s %s %s %s" % (
-                    pt, q(tol), q(ptol), nat(k), nat(j), qmat(G), qmat(Qs),
+                terms.append("pb_rep %s %s %s %s %s %s %s %s %s %s" % (
+                    pt, q(tol), q(ptol), nat(k), nat(j), vlib.b(j <= 25), qmat(G), qmat(Qs),
                     entries(case["beliefs"], pb["queries"]), qmat(pts)))
                 meta.append(("pb", i))
+                nb = min(len(B), 8)
+                terms.append("sw %s %s %s %s %s %s" % (
+                    pt, q(tol), qmat(lc["prev_alpha_vectors"]), qmat(B[:nb]), qten(lc["candidates"][:nb]),
+                    vlib.natlist(lc["selected"][:nb])))
+                meta.append(("sw", i))
                 work = (min(j + 1, H)) * len(B) * nA * nO * (len(B) + n)
                 if work <= mirror_budget:
                     terms.append("mir %s %s %s %s %s %s %s" % (
@@ -419,6 +443,14 @@ def run(ctx):
                     ctx.violation("C08:pbvi:value-exceeds-qmdp-value-plus-slack", d, found=True)
                 if fullobs and closed and not fge:
                     ctx.violation("C08:fullobs:pbvi-below-optimal-value-on-closed-belief-set", d, found=True)
+        elif kind == "sw":
+            nev += 1
+            counters["sweep_checks"] = counters.get("sweep_checks", 0) + 1
+            if not v:
+                lc = res["pbvi"]["last_call"]
+                ctx.violation("C08:pbvi:last-sweep-not-a-point-based-backup",
+                              dict(base, last_call=lc, clause="at a point of the belief set used, an action's backed-up vector does not have the value reward + gamma * sum_o max_alpha alpha.(b T_a diag O_ao) computed from the previous alpha vectors (absorbing states zeroed), or the selected action is not maximal"),
+                              found=True)
         elif kind == "mir":
             pb = res["pbvi"]
             wf, (jm, flag, close) = v
